@@ -15,6 +15,9 @@ pub struct Built {
 
 /// `docs`: the DOM when the case is structured; `bytes`: what the library reads
 pub fn build_case(docs: Option<&[Vec<Node>]>, bytes: &[Vec<u8>], cfg: &RCfg, opts: &[Opts], it: &mut Interner, extra: Vec<(&str, J)>) -> Built {
+    // logging on for every other case (by content, so that a replay sees the same level)
+    let h: usize = bytes.iter().map(|b| b.len() + b.first().map(|x| *x as usize).unwrap_or(0)).sum();
+    log::set_max_level(if h % 2 == 0 { log::LevelFilter::Trace } else { log::LevelFilter::Off });
     let mut tab = ErrTab::default();
     let events: Vec<Vec<Ev>> = bytes.iter().map(|b| record(b, cfg, &mut tab)).collect();
     let result = run_impl_guarded(bytes, cfg, &mut tab, 10);
@@ -48,6 +51,7 @@ pub fn build_case(docs: Option<&[Vec<Node>]>, bytes: &[Vec<u8>], cfg: &RCfg, opt
     );
     let term = format!("Build_doccase {} {} {} {}", docs_t, evs_t, coq_iresult(&result, it), rend_t);
     let mut kv = vec![
+        ("log_level", json::s(if h % 2 == 0 { "trace" } else { "off" })),
         ("documents", J::A(bytes.iter().map(|b| json::bytes(b)).collect())),
         ("reader", cfg.json()),
         ("impl", result.json()),
